@@ -165,23 +165,14 @@ TUP_SKIP = ["arithmetic overflow on signed shl in flag << \\d+"]
 TUP_UNDEC = ["`flag << 16` with an untrusted 32-bit flag word is a signed left shift that overflows for flag >= 0x8000 or flag < 0 (undefined in ISO C; every supported compiler produces the low 16 bits shifted): "
              "the obligation is excluded here and is the only obligation of unit marsh.arm.tuple.flag_shift"]
 cont("tuple", "LB_TUPLE", 1, 2, 0,
-     "LB_TUPLE: DOS check on the untrusted length; built by janet_tuple_begin(length); the flag word of the image reaches only bits 16..31 of the header flags (never the collector's memory-type / reachable / disabled bits) and reads back as marshal wrote it; "
+     "LB_TUPLE: DOS check on the untrusted length; merging the untrusted 32-bit flag word is free of undefined behaviour; built by janet_tuple_begin(length); the flag word of the image reaches only bits 16..31 of the header flags (never the collector's memory-type / reachable / disabled bits) and reads back as marshal wrote it; "
      "element i is read into slot i one level deeper; the tuple is finished by janet_tuple_end after all elements and is numbered only THEN (exactly once): while it is incomplete it has no number, so no back reference to an incomplete tuple can exist",
-     [mut("flag-shift-too-short", "                janet_tuple_flag(tup) |= flag << 16;", "                janet_tuple_flag(tup) |= flag << 8;", "collector's bits|read back"),
+     [mut("flag-shift-too-short", "                janet_tuple_flag(tup) |= (int32_t)((uint32_t) flag << 16);", "                janet_tuple_flag(tup) |= (int32_t)((uint32_t) flag << 8);", "collector's bits|read back"),
       mut("numbered-while-incomplete", "                Janet *tup = janet_tuple_begin(len);\n", "                Janet *tup = janet_tuple_begin(len);\n                janet_v_push(st->lookup, janet_wrap_tuple(tup));\n", "numbered only when|exactly once"),
       mut("not-finished", "                *out = janet_wrap_tuple(janet_tuple_end(tup));", "                *out = janet_wrap_tuple(tup);", "finished"),
-      mut("depth-not-advanced", TUP_CHILD, TUP_CHILD.replace("flags + 1", "flags"), "nesting level")],
-     skip=TUP_SKIP, undecided_clauses=TUP_UNDEC)
-SHL_ONLY = "arithmetic overflow on signed shl in flag << \\d+|REACH"
-cont("tuple.flag_shift", "LB_TUPLE", 1, 2, 0,
-     "LB_TUPLE: merging the untrusted flag word into the tuple header (`flag << 16`) is free of undefined behaviour for every 32-bit flag word",
-     [mut("shift-one-more", "                janet_tuple_flag(tup) |= flag << 16;", "                janet_tuple_flag(tup) |= flag << 17;", "shl")],
-     props=("C10",), dos=False, only=SHL_ONLY)
-cont("tuple.flag_shift16", "LB_TUPLE", 1, 2, 0,
-     "LB_TUPLE: merging the flag word into the tuple header (`flag << 16`) is free of undefined behaviour for flag words in [0, 0x8000) (marshal writes 0 or 1 for tuples made by the core)",
-     [mut("shift-one-more", "                janet_tuple_flag(tup) |= flag << 16;", "                janet_tuple_flag(tup) |= flag << 17;", "shl")],
-     props=("C10",), dos=False, defines=["-DMA_FLAG16"], only=SHL_ONLY)
-units[-1]["bound"] += "; flag words restricted to [0, 0x8000)"
+      mut("depth-not-advanced", TUP_CHILD, TUP_CHILD.replace("flags + 1", "flags"), "nesting level"),
+      mut("signed-shift-again", "                janet_tuple_flag(tup) |= (int32_t)((uint32_t) flag << 16);", "                janet_tuple_flag(tup) |= flag << 16;", "shl")],
+     )
 STR_PUT = "                    janet_struct_put(struct_, key, value);"
 for nm, lead, proto in (("struct", "LB_STRUCT", 0), ("struct_proto", "LB_STRUCT_PROTO", 1)):
     ms = [mut("value-before-key", STR_PUT, "                    janet_struct_put(struct_, value, key);", "key then value"),
@@ -337,12 +328,12 @@ api("marsh.api.bytes", "h_api_bytes",
              "safe_memcpy: precondition source readable / destination writable for len bytes (asserted), copies"])
 api("marsh.api.ensure", "h_api_ensure",
     "janet_unmarshal_ensure(ctx, size), size <= 2^40: returns only if at least `size` bytes remain (it actually demands one more); the cursor does not move",
-    [mut("comparison-flipped", "    MARSH_EOS(st, ctx->data + size);\n}", "    if (ctx->data + size < st->end) janet_panic(\"unexpected end of source\");\n}", "at least|REACH")],
+    [mut("comparison-flipped", "    if (size >= (size_t)(st->end - ctx->data)) janet_panic(", "    if (size < (size_t)(st->end - ctx->data)) janet_panic(", "at least|REACH")],
     ["-DAP_ENSURE", "-DAP_ENSURE_MAX=((size_t)1<<40)"], ["janet_unmarshal_ensure"],
     bound="size <= 2^40 (see marsh.api.ensure.any_size); " + BOUND_IN % (12, 9))
 api("marsh.api.ensure.any_size", "h_api_ensure",
     "janet_unmarshal_ensure(ctx, size) for EVERY size_t (the size typically comes straight from the image, janet_unmarshal_size): returns only if at least `size` bytes remain",
-    [mut("comparison-flipped", "    MARSH_EOS(st, ctx->data + size);\n}", "    if (ctx->data + size < st->end) janet_panic(\"unexpected end of source\");\n}", "at least|REACH")],
+    [mut("comparison-flipped", "    if (size >= (size_t)(st->end - ctx->data)) janet_panic(", "    if (size < (size_t)(st->end - ctx->data)) janet_panic(", "at least|REACH"), mut("address-comparison-again", "    if (size >= (size_t)(st->end - ctx->data)) janet_panic(\"unexpected end of source\");", "    MARSH_EOS(st, ctx->data + size);", "at least|pointer")],
     ["-DAP_ENSURE"], ["janet_unmarshal_ensure"])
 api("marsh.api.janet", "h_api_janet",
     "janet_unmarshal_janet: exactly one nested value is read by unmarshal_one from the context's cursor, in the context's state, at the context's depth; it is returned and the context's cursor is where the nested reader left it",
@@ -410,17 +401,7 @@ def disable(uid, reason):
             u["disabled_reason"] = reason
             return
     sys.exit("no unit " + uid)
-disable("marsh.arm.tuple.flag_shift",
-        "FAILS on the real code (undefined behaviour, no observable misbehaviour with gcc/clang): obligation unmarshal_one.overflow.* 'arithmetic overflow on signed shl in flag << 16' (marsh.c, LB_TUPLE arm: "
-        "`janet_tuple_flag(tup) |= flag << 16;` with `int32_t flag = readint(...)` straight from the image). Reproducer on a -fsanitize=shift build of /repo/_build/janet.c: "
-        "(unmarshal \"\\xD2\\x00\\xCD\\x00\\x00\\x80\\x00\") -> 'src/core/marsh.c:<line of that statement, " + str(SRC[:SRC.index('janet_tuple_flag(tup) |= flag << 16;')].count(chr(10)) + 1) + " in the current tree>:47: runtime error: left shift of 32768 by 16 places cannot be represented in type 'int''. "
-        "On the shipped binary the same image yields a tuple whose header has the sign bit set and prints as () instead of []. The restricted unit marsh.arm.tuple.flag_shift16 (flag in [0, 0x8000)) passes; "
-        "unit marsh.arm.tuple proves that whatever the flag word is, only bits 16..31 of the header are touched. Possible fix: `janet_tuple_flag(tup) |= (int32_t)((uint32_t) flag << 16);` or accept only the defined flag bits.")
-disable("marsh.api.ensure.any_size", "FAILS on the real code (C API only, no Janet-level reproducer): obligation h_api_ensure.assertion.1: `MARSH_EOS(st, ctx->data + size)` computes a pointer `size` bytes past the cursor; for size >= 2^63 "
-        "the address wraps around (size = SIZE_MAX gives data - 1 < end) and the check passes although fewer than `size` bytes remain (janet_unmarshal_bytes has the same `ctx->data + len - 1`, but there the caller must own "
-        "a destination of len bytes). A hook written as `n = janet_unmarshal_size(ctx); janet_unmarshal_ensure(ctx, n); p = janet_unmarshal_abstract(ctx, n);` is then driven into an allocation of n bytes (out of memory = process exit). "
-        "The only caller in core, peg_unmarshal, bounds both of its counts by INT32_MAX before it calls janet_unmarshal_ensure, so the core is not affected. The restricted unit marsh.api.ensure (size <= 2^40) passes. "
-        "Possible fix: `if (size > (size_t)(st->end - ctx->data)) janet_panic(...)`.")
+# (both former disabled units - marsh.arm.tuple.flag_shift, marsh.api.ensure.any_size - pass since /repo 6044c38 and 0650812)
 
 json.dump({"units": units}, open(os.path.join(V, 'units', 'C10_arms.json'), 'w'), indent=1)
 print('%d units' % len(units))
